@@ -21,4 +21,19 @@ CHECKS["C16"] = {
     "text": "The data-race guarantee is decided deterministically: a colouring walker on every space of the C09-style workload (no two elements of one colour share a local2global value, artificial zero-multiplier DOFs included) and a launch recorder that checks, for every regular-kernel launch of the operator workload, that the test elements processed in one prange write pairwise disjoint rows and that all index arguments are inside the array extents. The observable is decided by re-assembling each operator/potential under thread counts {1,2,7,16} x chunk sizes {0,1,3} x repetitions, with GIL-releasing CPU noise and concurrent Python threads, on two threading layers: one SHA-1 per operator.",
     "note": "ThreadSanitizer/helgrind cannot instrument Numba JIT code; the write-set monitor replaces them. Determinism is 'held on the schedules observed' (listed in the evidence), not a proof over all OpenMP schedules.",
 }
+CHECKS["C19"] = {
+    "technique": "file round-trip monitor: export through the public API, read back with meshio / import_grid, compare with independently computed expected data",
+    "text": "Generated grids (closed/open/multi-domain, six domain-index classes incl. all-zero, single-valued, non-contiguous, up to 2^31-1) and grid functions (DP0/DP1/P1/RWG/SNC x real/complex x node/element x every transformation incl. callables) are exported to .msh/.vtu/.ply in binary and ASCII; .msh grids come back through import_grid with identical vertices, elements and domain indices, the other formats preserve vertices and connectivity, and function files read with meshio equal evaluate_on_vertices / evaluate_on_element_centers after the documented transformation computed by the check. What a format can store, and how precisely, is calibrated at run time by a meshio-only write/read, so that format limits are never blamed on bempp-cl.",
+    "note": "Trusted: meshio as reader; the calibration table (in the evidence). .vtk is not claimed (not named by the property). Combinations meshio itself cannot store are skipped and counted.",
+}
+CHECKS["C01"] = {
+    "technique": "analytic-identity residual monitor with convergence ladder + launch recorder + Numba sanitizer-build replay",
+    "text": "Both Calderon identities are evaluated for random affine u on closed meshes of several topological types (convex, non-convex, genus 1, multi-component, relabelled, scaled, translated) along a ladder of (regular, singular) quadrature orders; violated if the residual at the top of the ladder is >= 1e-6 or is not >= 30x smaller than at (6,6). The ladder is extended up to (20,18) while the residual is >= 1e-6 because the Duffy rules converge geometrically with a shape-dependent rate. Every kernel launch is bounds-validated by the launch recorder; a sample is re-run under the bounds-checked serial Numba build.",
+    "note": "Trusted: exact representability of affine traces in P1/DP0; the convergence criterion. Held on the meshes observed (counts in the evidence).",
+}
+CHECKS["C02"] = {
+    "technique": "analytic-identity monitor at winding-number-classified points with convergence ladder + differential sanitizer-build replay",
+    "text": "SL[a.n] - DL[u] is evaluated at interior and exterior points (classified by an independent solid-angle winding number, at least one circum-diameter from the surface) for random affine u along regular orders 4,8,12,16; violated if the error at order 16 is >= 1e-6 max|u| or not >= 30x below order 4. The same density split into segment-wise P1/DP0 pieces (with and without swapped normals compensated by sign) must reproduce the whole-grid potential to 1e-11. A sample is recomputed under the bounds-checked serial Numba build and compared to 1e-10.",
+    "note": "Trusted: winding-number classifier (vlib.refmodel); points with ambiguous classification are discarded.",
+}
 NOT_APPLICABLE = {}
